@@ -251,7 +251,7 @@ def unit_counts(U):
                 continue
             st = Q.parse(ex[0][1])
             si = Q.select_info(st.node)
-            cols = [Q.expr_text(c) for c, al in si.columns]
+            cols = Q.select_cols(si)
             cond, env = Q.where_predicate(si.where, {"features": frow}, ex[0][2], st.holes)
             spec = SQ.type_ok(frow, ft.z if shape == "str" else None)
             vars_ = dict(rvars, ft=ft.z)
@@ -311,7 +311,7 @@ def unit_counts(U):
             ex = ghostdb.executes(p.ctx)
             st = Q.parse(ex[0][1])
             si = Q.select_info(st.node)
-            cols = [Q.expr_text(c) for c, al in si.columns]
+            cols = Q.select_cols(si)
             U.prove("C11.%s.distinct#p%d" % (meth, p.index), "%s() lists exactly the distinct values of column %s present" % (meth, col), [],
                     z3.BoolVal(si.distinct and cols == [col] and si.where is None and not si.joins and si.source[1] == "features"), {}, replay=replay2)
 
